@@ -167,4 +167,17 @@ CLAIMS["C18"] = {
     "note": BASE_NOTE + "The clause 'no alteration of the proof bytes makes a different node label verify' and 'labels and commitments under "
             "different keys differ' rest on the exploration (all 80 bytes x 3 alterations, per input), not on a theorem.",
 }
+CLAIMS["C11"] = {
+    "text": "Proved in Lean over the model of the real insertion algorithm and of write_to_storage / determine_node_to_get: for storage "
+            "representing ANY well-formed trie at epoch e and ANY prefix-free batch inserted at e+1 inside a transaction, for EVERY "
+            "sub-collection W of the transaction log's node records written to the database (any subset, any order), every node of the "
+            "trie still reads, as of epoch e, exactly as before (partial_commit_invisible; modulo the parent field no proof reads); "
+            "keys new in the epoch resolve to not-found at e; the database is untouched before the commit; once the whole log is "
+            "written the storage represents the new trie (full_commit_visible). Tied to the Rust by exhaustive/randomised partial "
+            "application of real commit batches with fresh instances and the property's statement as oracle.",
+    "note": BASE_NOTE + "The theorem is about node records; value states of the unfinished epoch are invisible because readers filter by "
+            "epoch <= the epoch record (checked by the oracle, modelled in Dir.stateLeq / keyHistory). Hypotheses added by the proof: the "
+            "database holds records under their own labels (WellKeyed) and statements range over the trie's node keys (stray records "
+            "under unused keys are not constrained by the representation predicate).",
+}
 NOT_YET = {}
